@@ -5,6 +5,7 @@ import RaftModel.Driver.ConfChange
 import RaftModel.Driver.RaftLog
 import RaftModel.Driver.Storage
 import RaftModel.Driver.RawNode
+import RaftModel.Driver.RaftNode
 
 /-
 `rvm` — the model side of the correspondence check.
@@ -23,6 +24,7 @@ structure DState where
   rl : Option RaftLog := none
   ms : Option MemStorage := none
   rw : Option RwState := none
+  rn : Option RN.RNState := none
   lines : Nat := 0
   tag : String := ""   -- argument of the last `p new` line (the run's seed)
   compared : Nat := 0
@@ -48,6 +50,7 @@ def dispatch (st : DState) (comp : String) (cmd : List String) : DState × Strin
   | "rl" => let (s, o) := handleRL st.rl cmd; ({ st with rl := s }, o)
   | "ms" => let (s, o) := MS.handleMs st.ms cmd; ({ st with ms := s }, o)
   | "rw" => let (s, o) := handleRw st.rw cmd; ({ st with rw := s }, o)
+  | "rn" => let (s, o) := RN.handleRN st.rn cmd; ({ st with rn := s }, o)
   | _ => (st, "bad-op")
 
 /-- after a disagreement the component's sequence is abandoned until its next `new` -/
@@ -59,6 +62,7 @@ def abandon (st : DState) (comp : String) : DState :=
   | "rl" => { st with rl := none }
   | "ms" => { st with ms := none }
   | "rw" => { st with rw := none }
+  | "rn" => { st with rn := none }
   | _ => st
 
 def stepLine (st : DState) (line : String) : DState × Option String :=
